@@ -132,6 +132,30 @@ func runC09(p *P, r *R) {
 		r.ob("R09.1", "(*Stream).Flush: every exit has disposed of the outgoing chain (recycle, fallback, or successful enqueue)", p.pos(fl.Pos()), ok, true,
 			"an exit that neither recycles nor hands the chain to the peer leaks it: %s", p.pathString(res))
 		r.count("R09.1", "enqueue sites in Flush", len(findInstrs(fl, mPut)), 1)
+		// R09.15 once the enqueue succeeded the chain belongs to the peer (its consumer may pick the element up without any
+		// wake-up): no path from the enqueue-succeeded edge recycles it — whatever fails afterwards
+		nSucc := 0
+		for _, b := range fl.Blocks {
+			ifi := blockIf(b)
+			if ifi == nil {
+				continue
+			}
+			for i := range b.Succs {
+				if relOn(ifi.Cond, i == 0, isPutErr, isNilConst) != "==" {
+					continue
+				}
+				nSucc++
+				okp, res := p.findBadPath(fl, []Point{{b.Succs[i], -1}}, pathOpts{Bad: func(in ssa.Instruction) bool {
+					if _, isCall := in.(*ssa.Call); !isCall {
+						return false
+					}
+					return p.evMay(in, recycle, 2)
+				}})
+				r.ob("R09.15", "(*Stream).Flush: a chain that was enqueued successfully is never recycled by the sender", p.ipos(ifi), okp, true,
+					"after the hand-over the peer owns the slices; recycling them here gives them two owners: %s", p.pathString(res))
+			}
+		}
+		r.count("R09.15", "enqueue-succeeded edges in Flush", nSucc, 1)
 		// the chain handed over is the one that was built: offset operand comes from the send buffer's root
 		nRoot, nSites := 0, 0
 		_, wr := p.putFamily()
